@@ -22,7 +22,7 @@ def _env(extra_rustflags=""):
 
 def _run(cmd, env, timeout, mem_gb, log):
     """Run cmd (list) under a memory and time cap, whole process group killed on timeout."""
-    sh = "ulimit -v %d; exec %s" % (int(mem_gb * 1024 * 1024), " ".join(shlex.quote(c) for c in cmd))
+    sh = "ulimit -v %d; exec /usr/bin/time -f MAXRSS_KB=%%M %s" % (int(mem_gb * 1024 * 1024), " ".join(shlex.quote(c) for c in cmd))
     t0 = time.time()
     with open(log, "w") as lf:
         p = subprocess.Popen(["bash", "-c", sh], cwd=HARNESS, env=env, stdout=lf, stderr=subprocess.STDOUT,
@@ -99,13 +99,13 @@ def unwindset_from_rules(loops, rules, default):
     return ",".join(parts), table
 
 
-CHECK_RE = re.compile(r"^Check (\d+): (\S+)\s*$")
+CHECK_RE = re.compile(r"^Check (\d+): (.*?)\s*$")
 
 
-def parse_log(text):
+def parse_log(text, harness_name=None):
     res = {"failed": [], "unwinding_failed": [], "covers_total": 0, "covers_sat": 0, "covers_unsat": [],
            "verdict": None, "vars": 0, "clauses": 0, "symex_s": 0.0, "solver_s": 0.0, "checks": 0,
-           "vccs": None, "stubs": [], "error": None}
+           "vccs": None, "stubs": [], "error": None, "undetermined": 0}
     lines = text.splitlines()
     i = 0
     while i < len(lines):
@@ -125,11 +125,25 @@ def parse_log(text):
                     loc = s.split(":", 1)[1].strip()
                 j += 1
             if ".cover." in name or name.startswith("cover"):
-                res["covers_total"] += 1
-                if status == "SATISFIED":
-                    res["covers_sat"] += 1
-                else:
-                    res["covers_unsat"].append({"name": desc, "status": status})
+                # a witness named "@tag text" is only required in harnesses whose name contains tag
+                required = True
+                if desc.startswith("!"):
+                    # forbidden witness: must NOT be reachable/satisfiable
+                    if status == "SATISFIED":
+                        res["failed"].append({"check": name, "desc": "forbidden state reached: " + desc[1:], "loc": loc})
+                    else:
+                        res["forbidden_ok"] = res.get("forbidden_ok", 0) + 1
+                    i = j
+                    continue
+                mt = re.match(r"@(\S+) ", desc)
+                if mt and harness_name is not None:
+                    required = re.search(mt.group(1), harness_name) is not None
+                if required:
+                    res["covers_total"] += 1
+                    if status == "SATISFIED":
+                        res["covers_sat"] += 1
+                    else:
+                        res["covers_unsat"].append({"name": desc, "status": status})
             else:
                 res["checks"] += 1
                 if status == "FAILURE":
@@ -138,10 +152,8 @@ def parse_log(text):
                         res["unwinding_failed"].append(ent)
                     else:
                         res["failed"].append(ent)
-                elif status not in ("SUCCESS",):
-                    # UNDETERMINED / UNREACHABLE etc.
-                    if status == "UNDETERMINED":
-                        res["failed"].append({"check": name, "desc": desc + " [UNDETERMINED]", "loc": loc})
+                elif status == "UNDETERMINED":
+                    res["undetermined"] += 1
             i = j
             continue
         m = re.match(r"(\d+) variables, (\d+) clauses", l)
@@ -157,6 +169,9 @@ def parse_log(text):
         m = re.match(r"Generated (\d+) VCC\(s\), (\d+) remaining", l)
         if m:
             res["vccs"] = [int(m.group(1)), int(m.group(2))]
+        m = re.match(r"MAXRSS_KB=(\d+)", l)
+        if m:
+            res["maxrss_gb"] = round(int(m.group(1)) / 1048576.0, 2)
         if l.startswith("VERIFICATION:-"):
             res["verdict"] = l.split(":-")[1].strip()
         m = re.match(r"\s*- Stub: (.*)", l)
@@ -185,7 +200,7 @@ class Query:
     """One Kani harness run = one (family of) solver queries over the compiled code."""
 
     def __init__(self, harness, stubbing=False, rules=None, default_unwind=None, timeout=600, mem_gb=12,
-                 features=None, extra_rustflags="", should_fail=False, note="", reach_checks=False):
+                 features=None, extra_rustflags="", should_fail=False, note="", reach_checks=False, should_panic=False):
         self.harness = harness
         self.stubbing = stubbing
         self.rules = rules  # None => harness carries #[kani::unwind]
@@ -197,6 +212,7 @@ class Query:
         self.should_fail = should_fail  # reachability twin: a FAILED verdict is the expected outcome
         self.note = note
         self.reach_checks = reach_checks
+        self.should_panic = should_panic  # #[kani::should_panic] harness: panics are the expected outcome
 
 
 def run_query(q, lane, logdir, playback=True):
@@ -220,10 +236,10 @@ def run_query(q, lane, logdir, playback=True):
             cmd += ["--unwindset", uws]
     rc, timed_out, wall = _run(cmd, _env(q.extra_rustflags), q.timeout, q.mem_gb, log)
     text = open(log, errors="replace").read()
-    p = parse_log(text)
+    p = parse_log(text, short)
     out.update(wall_s=round(time.time() - t0, 2), vars=p["vars"], clauses=p["clauses"], symex_s=round(p["symex_s"], 2),
                solver_s=round(p["solver_s"], 2), checks=p["checks"], covers_sat=p["covers_sat"],
-               covers_total=p["covers_total"], stubs=p["stubs"], log=log, vccs=p["vccs"])
+               covers_total=p["covers_total"], stubs=p["stubs"], log=log, vccs=p["vccs"], maxrss_gb=p.get("maxrss_gb"))
     if timed_out:
         out.update(status="inconclusive", reason="timeout after %ds" % q.timeout)
         return out
@@ -241,6 +257,14 @@ def run_query(q, lane, logdir, playback=True):
         else:
             out.update(status="inconclusive", reason="vacuous: reachability twin was not violated")
         return out
+    if q.should_panic:
+        p["failed"] = [f for f in p["failed"] if f["desc"].startswith("forbidden state reached")]
+        if not p["failed"] and not (p["verdict"] or "").startswith("SUCCESSFUL"):
+            out.update(status="fail", failed=[{"check": "should_panic", "desc": "expected panic did not occur on every path: " + str(p["verdict"]), "loc": ""}])
+            return out
+        if not p["failed"] and not p.get("forbidden_ok"):
+            out.update(status="inconclusive", reason="should_panic harness without its unreachable marker")
+            return out
     if p["failed"]:
         out.update(status="fail", failed=p["failed"][:8])
         if playback:
@@ -254,7 +278,10 @@ def run_query(q, lane, logdir, playback=True):
             vals = parse_playback(open(log + ".playback", errors="replace").read())
             out["witness_vals"] = vals
         return out
-    if p["verdict"] != "SUCCESSFUL":
+    if p["undetermined"]:
+        out.update(status="inconclusive", reason="%d checks UNDETERMINED" % p["undetermined"])
+        return out
+    if not p["verdict"].startswith("SUCCESSFUL"):
         out.update(status="inconclusive", reason="verdict %s without a failed check" % p["verdict"])
         return out
     if p["covers_unsat"]:
